@@ -234,14 +234,11 @@ func cmdCheck(args []string) int {
 	// ---- witness replays (engine vs native agreement on passing paths) ----
 	witnessOK, witnessBad := 0, 0
 	if !*noReplay && exit == 0 {
-		for _, res := range results {
-			ok, bad, msgs := replayWitnesses(eng, *prop, res)
-			witnessOK += ok
-			witnessBad += bad
-			for _, m := range msgs {
-				fmt.Println("ENGINE-MISMATCH (witness):", m)
-				res.Stats.notEstablished("witness replay mismatch: " + m)
-			}
+		ok, bad, msgs := replayWitnesses(eng, *prop, results)
+		witnessOK, witnessBad = ok, bad
+		for _, m := range msgs {
+			fmt.Println("ENGINE-MISMATCH (witness):", m)
+			results[0].Stats.notEstablished("witness replay mismatch: " + m)
 		}
 	}
 
@@ -287,8 +284,8 @@ func countUnknownViolations(o []outcomeRec) int {
 
 func printResult(r *HarnessResult) {
 	s := r.Stats
-	fmt.Printf("harness %s: paths=%d ends=%v forks=%d feasQ=%d decideQ=%d (unsat %d sat %d unk %d) constAsserts=%d steps=%d solver=%.1fs wall=%.1fs funcs=%d\n",
-		r.Run.Name, s.Paths, s.PathEnds, s.Forks, s.FeasQueries, s.DecideQueries, s.DecideUnsat, s.DecideSat, s.DecideUnknown, s.AssertConst, s.Steps, s.SolverTime.Seconds(), r.Wall.Seconds(), len(r.Funcs))
+	fmt.Printf("harness %s: paths=%d ends=%v forks=%d facts=%d feasQ=%d decideQ=%d (unsat %d sat %d unk %d) constAsserts=%d steps=%d solver=%.1fs wall=%.1fs funcs=%d\n",
+		r.Run.Name, s.Paths, s.PathEnds, s.Forks, s.FactPruned, s.FeasQueries, s.DecideQueries, s.DecideUnsat, s.DecideSat, s.DecideUnknown, s.AssertConst, s.Steps, s.SolverTime.Seconds(), r.Wall.Seconds(), len(r.Funcs))
 	if r.InitErr != "" {
 		fmt.Println("  init:", r.InitErr)
 	}
@@ -456,41 +453,63 @@ func cmdReplay(args []string) int {
 	return 0
 }
 
-// replayWitnesses runs sampled passing paths natively; they must pass there too.
-func replayWitnesses(eng *Engine, prop string, res *HarnessResult) (ok, bad int, msgs []string) {
-	var vecs []map[string]interface{}
-	fn := strings.SplitN(res.Run.Name, "/", 2)[0]
-	for _, s := range res.Stats.Samples {
-		in, has := s["witness_inputs_full"]
-		if !has {
-			continue
+// replayWitnesses runs sampled passing paths natively (one go test per package); they must pass there too.
+func replayWitnesses(eng *Engine, prop string, results []*HarnessResult) (ok, bad int, msgs []string) {
+	type item struct {
+		res *HarnessResult
+		vec map[string]interface{}
+	}
+	byPkg := map[string][]item{}
+	for _, res := range results {
+		fn := strings.SplitN(res.Run.Name, "/", 2)[0]
+		pkg := harnessPkgOf(eng, fn)
+		for _, s := range res.Stats.Samples {
+			in, has := s["witness_inputs_full"]
+			if !has {
+				continue
+			}
+			byPkg[pkg] = append(byPkg[pkg], item{res, map[string]interface{}{"harness": fn, "inputs": in, "params": res.Run.Params}})
 		}
-		vecs = append(vecs, map[string]interface{}{"harness": fn, "inputs": in, "params": res.Run.Params})
 	}
-	if len(vecs) == 0 {
-		return 0, 0, nil
-	}
-	pkg := harnessPkgOf(eng, fn)
 	dir := filepath.Join(verifRoot, "replays", prop)
 	os.MkdirAll(dir, 0o755)
-	for i, v := range vecs {
-		p := filepath.Join(dir, fmt.Sprintf("witness-%s-%d.json", strings.ReplaceAll(res.Run.Name, "/", "_"), i))
-		b, _ := json.Marshal(v)
+	pkgs := make([]string, 0, len(byPkg))
+	for p := range byPkg {
+		pkgs = append(pkgs, p)
+	}
+	sort.Strings(pkgs)
+	for _, pkg := range pkgs {
+		items := byPkg[pkg]
+		var vecs []interface{}
+		for _, it := range items {
+			vecs = append(vecs, it.vec)
+		}
+		p := filepath.Join(dir, "witnesses-"+strings.ReplaceAll(strings.TrimPrefix(pkg, modPath), "/", "_")+".json")
+		b, _ := json.Marshal(vecs)
 		os.WriteFile(p, b, 0o644)
 		out, _ := nativeRun(eng, pkg, p)
 		rl := resultLines(out)
-		if len(rl) == 1 && (rl[0] == "pass" || strings.HasPrefix(rl[0], "skip")) {
-			ok++
-			os.Remove(p)
-		} else {
+		if len(rl) != len(items) {
 			bad++
-			r := "no result"
-			if len(rl) > 0 {
-				r = rl[0]
-			} else if len(out) > 300 {
-				r = strings.ReplaceAll(out[len(out)-300:], "\n", " | ")
+			tail := out
+			if len(tail) > 400 {
+				tail = tail[len(tail)-400:]
 			}
-			msgs = append(msgs, fmt.Sprintf("%s: engine path passed, native run says %q (vector %s)", res.Run.Name, r, p))
+			msgs = append(msgs, fmt.Sprintf("%s: %d witness vectors, %d result lines; output tail: %s", pkg, len(items), len(rl), strings.ReplaceAll(tail, "\n", " | ")))
+			continue
+		}
+		allOK := true
+		for i, r := range rl {
+			if r == "pass" || strings.HasPrefix(r, "skip") {
+				ok++
+			} else {
+				bad++
+				allOK = false
+				msgs = append(msgs, fmt.Sprintf("%s: engine path passed, native run says %q (vector #%d in %s)", items[i].res.Run.Name, r, i, p))
+			}
+		}
+		if allOK {
+			os.Remove(p)
 		}
 	}
 	return
@@ -531,7 +550,7 @@ func writeEvidence(prop, tier string, seed int, pc *PropCfg, eng *Engine, result
 		harnesses = append(harnesses, map[string]interface{}{
 			"harness": r.Run.Name, "package": r.Run.Pkg, "params": r.Run.Params, "arith_mode": r.Run.Arith,
 			"paths": r.Stats.Paths, "path_ends": r.Stats.PathEnds, "forks": r.Stats.Forks,
-			"feasibility_queries": r.Stats.FeasQueries, "deciding_queries": r.Stats.DecideQueries,
+			"feasibility_queries": r.Stats.FeasQueries, "branches_decided_by_interval_facts": r.Stats.FactPruned, "deciding_queries": r.Stats.DecideQueries,
 			"deciding_unsat": r.Stats.DecideUnsat, "deciding_sat": r.Stats.DecideSat, "deciding_unknown": r.Stats.DecideUnknown,
 			"assertions_folded_true_by_construction": r.Stats.AssertConst, "assertion_sites": r.Stats.Asserts,
 			"reach": r.Stats.Reached, "choices": r.Stats.Choices, "steps": r.Stats.Steps, "max_decision_depth": r.Stats.MaxDepth,
